@@ -60,7 +60,7 @@ func genUser(r *hutil.Rand) string {
 
 // hostile user names: anything printable a client can send (spaces, words of the message, forged fragments)
 func genHostileUser(r *hutil.Rand) string {
-	frags := []string{" from ", " port ", "from", "port", " ", "  ", "x", "bob", "6.6.6.6", "22", " ssh2", "invalid user ", "User ", "'", "\"", "\\", ":", "[", "]", "%", "日本", "a b"}
+	frags := []string{" from ", " port ", "from", "port", " ", "  ", "\t", "x", "bob", "Certificate invalid: expired", "Accepted publickey", "Accepted password for root", "Invalid user ", "ROOT LOGIN REFUSED FROM ", "Failed password for ", "User root ", "Address 1.2.3.4 maps to x", "maximum authentication attempts exceeded for ", "6.6.6.6", "22", " ssh2", "invalid user ", "User ", "'", "\"", "\\", ":", "[", "]", "%", "日本", "a b"}
 	switch r.Intn(8) {
 	case 6:
 		// a complete "accepted" message inside the name: `ssh 'Accepted password for root from … ssh2'@host`
